@@ -27,9 +27,18 @@ enum : int {
     TUP = 5,   // nmtools_tuple<nm_index_t...>                               run-time tuple
     RAW = 6,   // nm_index_t[N]                                              raw C array
     CLA = 7,   // nmtools_array<clipped_size_t<max(V...)+1>,N>               bounded values, uniform bound
+    CLT = 8,   // nmtools_tuple<clipped_size_t<max(V,1)>...>(V...)           TIGHT bounds (bound == value, as the shapes of the ls_* array kinds and the
+               //                                                             library's "1:[1]"_ct literals are used); only in builds with -DC09_CLT, which
+               //                                                             enumerate exactly the kind tuples that contain this kind (added after seeded
+               //                                                             change m09b: with the loose bounds of CL the clipped code paths of squeeze & co.
+               //                                                             already fail on the pinned tree, which masks any further breakage there)
+#ifdef C09_CLT
+    NKIND = 9
+#else
     NKIND = 8
+#endif
 };
-inline const char* kind_name(int k) { static const char* n[] = {"dyn", "ct", "clipped", "fixed", "bounded", "rtuple", "raw", "clipped_arr"}; return (k >= 0 && k < NKIND) ? n[k] : "?"; }
+inline const char* kind_name(int k) { static const char* n[] = {"dyn", "ct", "clipped", "fixed", "bounded", "rtuple", "raw", "clipped_arr", "clipped_tight"}; return (k >= 0 && k < NKIND) ? n[k] : "?"; }
 
 template <long... Vs> struct vals { static constexpr size_t N = sizeof...(Vs); };   // shape-like argument
 template <long V> struct scal {};                                                     // scalar index argument (axis, ndim, offset): kinds DYN / CT / CL
@@ -60,6 +69,8 @@ template <long... Vs> constexpr auto lift(kind_c<FIX>) { return nmtools_array<nm
 template <long... Vs> inline    auto lift(kind_c<BND>) { nmtools_static_vector<nm_index_t, 8> v; (v.push_back((nm_index_t)Vs), ...); return v; }
 template <long... Vs> inline    auto lift(kind_c<DYN>) { nmtools_list<nm_index_t> v; (v.push_back((nm_index_t)Vs), ...); return v; }
 template <long... Vs> constexpr auto lift(kind_c<TUP>) { return nmtools_tuple{(nm_index_t)Vs...}; }
+template <long V> constexpr auto clipped_tight_of() { return nm::clipped_size_t<(nm_size_t)cmax(V, 1)>((nm_size_t)V); }
+template <long... Vs> constexpr auto lift(kind_c<CLT>) { return nmtools_tuple{clipped_tight_of<Vs>()...}; }
 template <long... Vs> constexpr auto lift(kind_c<CLA>) { using c_t = nm::clipped_size_t<(nm_size_t)(max_of<Vs...>() + 1)>; return nmtools_array<c_t, sizeof...(Vs)>{c_t((nm_size_t)Vs)...}; }
 
 // number of kinds of an argument type (kind ids 0..nkinds-1; a holder may still declare a kind inapplicable)
@@ -70,7 +81,7 @@ template <typename T> struct nkinds<fix<T>> { static constexpr int value = 1; };
 
 // holder: owns one lifted argument (needed for raw C arrays, which cannot be returned by value)
 template <int K, typename A, typename = void> struct holder { static constexpr bool applicable = false; int v = 0; constexpr const int& get() const { return v; } };
-template <int K, long... Vs> struct holder<K, vals<Vs...>, meta::enable_if_t<(K != RAW && K >= 0 && K < NKIND && sizeof...(Vs) > 0 && !((K == CLA) && any_negative<Vs...>()))>> {
+template <int K, long... Vs> struct holder<K, vals<Vs...>, meta::enable_if_t<(K != RAW && K >= 0 && K < NKIND && sizeof...(Vs) > 0 && !((K == CLA || K == CLT) && any_negative<Vs...>()))>> {
     static constexpr bool applicable = true;
     decltype(lift<Vs...>(kind_c<K>{})) v = lift<Vs...>(kind_c<K>{});
     constexpr const auto& get() const { return v; }
@@ -282,6 +293,14 @@ template <typename Op, size_t I, int K, typename... A> struct cx_inst<Op, I, K, 
 template <int... Ks> constexpr int deviations() { return ((Ks != DYN ? 1 : 0) + ... + 0); }
 template <int... Ks> constexpr bool uniform() { int first = -1; bool u = true; ((first < 0 ? (first = Ks, 0) : (u = u && (Ks == first), 0)), ...); return u; }
 
+// -DC09_CLT builds enumerate exactly the tuples that contain the tight-clipped kind (everything else is covered by the regular units)
+template <int... Ks> constexpr bool clt_filter() {
+#ifdef C09_CLT
+    return ((Ks == CLT) || ... || false);
+#else
+    return true;
+#endif
+}
 // helpers for the exclusion tables
 template <size_t P, int... Ks> constexpr int kind_at() { constexpr int k[] = {Ks..., -1}; return k[P]; }
 template <int K, int... Ks> constexpr bool has_kind() { return ((Ks == K) || ... || false); }
@@ -318,8 +337,9 @@ template <typename Op, size_t I, typename... A, int... Done> struct kloop<Op, I,
         constexpr size_t P = sizeof...(Done);
         if constexpr (P == sizeof...(A)) {
             using seq = meta::integer_sequence<int, Done...>;
-            if constexpr ((deviations<Done...>() <= build_dev<Op>() || uniform<Done...>()) && (kind_at<0, Done...>() % C09_KMOD == C09_KREM) && inst<Op, I, seq, in<A...>>::applicable) {
-                if constexpr (!Op::template excluded<I, Done...>()) f(meta::index_constant<I>{}, seq{}, meta::false_type{});
+            if constexpr ((deviations<Done...>() <= build_dev<Op>() || uniform<Done...>()) && (kind_at<0, Done...>() % C09_KMOD == C09_KREM) && clt_filter<Done...>() && inst<Op, I, seq, in<A...>>::applicable) {
+                // the tables of hard compile errors were bisected for CL; CLT has the same type structure (a tuple of clipped_size_t) and is looked up as CL
+                if constexpr (!Op::template excluded<I, (Done == CLT ? (int)CL : Done)...>()) f(meta::index_constant<I>{}, seq{}, meta::false_type{});
                 else f(meta::index_constant<I>{}, seq{}, meta::true_type{});      // in the table of hard compile errors: reported to the visitor, never instantiated
             }
         } else {
